@@ -11,8 +11,8 @@ import (
 	"time"
 	"unsafe"
 
-	wire "github.com/jeroenrinzema/psql-wire"
 	"github.com/jackc/pgx/v5/pgtype"
+	wire "github.com/jeroenrinzema/psql-wire"
 	"github.com/jeroenrinzema/psql-wire/pkg/verifshim/vsched"
 	"github.com/lib/pq/oid"
 	"verif/engine/explore"
@@ -33,11 +33,11 @@ type c15Conn struct {
 
 type c15Spec struct {
 	dependency bool
-	auth   bool
-	name   string
-	desc   string
-	conns  []c15Conn
-	global wire.Parameters
+	auth       bool
+	name       string
+	desc       string
+	conns      []c15Conn
+	global     wire.Parameters
 }
 
 func c15Specs() []c15Spec {
@@ -55,7 +55,7 @@ func c15Specs() []c15Spec {
 			conns:  []c15Conn{{"c1", [][]byte{st("u1"), pgproto.Query("whoami")}}, {"c2", [][]byte{st("u2"), pgproto.Query("whoami")}}}},
 		{name: "S-D", desc: "3 connections mixing a typed row, an extended batch with shared names and a parameter-reading handler",
 			global: wire.Parameters{"a": "1"},
-			conns: []c15Conn{{"c1", [][]byte{st("u1"), pgproto.Query("int4row")}}, {"c2", append([][]byte{st("u2")}, ext("2:p,c=Q1", "vv")...)}, {"c3", [][]byte{st("u3"), pgproto.Query("whoami")}}}},
+			conns:  []c15Conn{{"c1", [][]byte{st("u1"), pgproto.Query("int4row")}}, {"c2", append([][]byte{st("u2")}, ext("2:p,c=Q1", "vv")...)}, {"c3", [][]byte{st("u3"), pgproto.Query("whoami")}}}},
 		{name: "S-E", desc: "connection 1 inside COPY-in while connection 2 runs queries",
 			conns: []c15Conn{{"c1", [][]byte{st("u1"), pgproto.Query("1:copyt:drain"), pgproto.CopyData([]byte("row1\n")), pgproto.CopyData([]byte("row2\n")), pgproto.CopyDone()}},
 				{"c2", [][]byte{st("u2"), pgproto.Query("1:r,c=T1"), pgproto.Query("int4row")}}}},
@@ -339,6 +339,7 @@ func init() {
 		return nil
 	}
 }
+
 // c15FreeRun serves the scenario with the scheduler INACTIVE: real goroutines,
 // real blocking, the shims pass straight through. It is a cross-check of the
 // race monitor (a plain free-running -race pass over the same scenario
